@@ -217,7 +217,7 @@ func bucket(n int) string {
 }
 
 func phaseName(p int64) string {
-	return [...]string{"init", "snap", "snap-fed", "snap-done", "log", "log-end", "reset", "done"}[p]
+	return [...]string{"init", "snap", "snap-fed", "snap-done", "log", "log-end", "reset", "done", "snap-fail", "log-fail"}[p]
 }
 
 // ---------------------------------------------------------------------------------------------
@@ -1007,6 +1007,19 @@ func (c *checker) checkImage(img *image, nAlter int) {
 		c.r.Count("phase_after-second-snapshot-started", 1)
 	}
 	c.r.Count("images", 1)
+	if len(img.Params.Faults) > 0 {
+		c.r.Count("images_of_hostile_chains", 1)
+	}
+	faultTag := ""
+	if img.Aim == "fault" {
+		kind := "?"
+		if st.FaultKind >= 0 && int(st.FaultKind) < len(prf.FaultKinds) {
+			kind = prf.FaultKinds[st.FaultKind]
+		}
+		faultTag = "|fault=" + kind
+		c.r.Count("images_in_backoff_after_refused_write_or_close", 1)
+		c.r.Seen("fault_kinds", kind+"|"+phaseName(st.Phase))
+	}
 	if img.Resumed {
 		c.r.Count("images_of_restarted_writers", 1)
 	}
@@ -1029,6 +1042,9 @@ func (c *checker) checkImage(img *image, nAlter int) {
 		rdbState := "none"
 		for _, rf := range di.rdbs {
 			switch {
+			case !rf.Tmp && rf.Raw != rf.Size:
+				rdbState = "done-but-short"
+				c.r.Seen("windows", "renamed-snapshot-shorter-than-its-name")
 			case !rf.Tmp:
 				rdbState = "done"
 			case rf.Raw == 0:
@@ -1098,6 +1114,7 @@ func (c *checker) checkImage(img *image, nAlter int) {
 			c.alter(img, id, di, rng, nAlter)
 		}
 	}
+	sig += faultTag
 	c.r.Distinct(sig)
 	c.sigMu.Lock()
 	c.sigHist[sig]++
@@ -1114,7 +1131,7 @@ func min64(a, b int64) int64 {
 // ---------------------------------------------------------------------------------------------
 // sampling: child supervision, freezing, copying
 
-func genParams(rng *rand.Rand) prf.Params {
+func genParams(rng *rand.Rand, hostile bool) prf.Params {
 	p := prf.Params{Seed: rng.Int63() >> 8}
 	p.LogSize = 200 + rng.Int63n(1849) // 200 B .. 2 KiB
 	p.ChunkMax = []int{8, 64, 300, 1500, 4096}[rng.Intn(5)]
@@ -1161,6 +1178,28 @@ func genParams(rng *rand.Rand) prf.Params {
 	if p.MaxSize > 0 {
 		p.GcEvery = (1 + rng.Int63n(6)) * p.LogSize
 		p.GcConcurrent = rng.Intn(2) == 0
+	}
+	if hostile {
+		// a hostile environment for every generation of this chain: the file system refuses a write
+		// at a PRNG byte count (first chunk / anywhere / the last chunk of the snapshot, a log
+		// segment), or the writer is closed while the last snapshot chunk is in flight
+		for range p.Gens {
+			f := prf.Fault{A: rng.Float64(), B: rng.Float64(), DelayUs: int(rng.Int63n(1 << uint(rng.Intn(10))))}
+			switch x := rng.Intn(100); {
+			case x < 8:
+			case x < 18:
+				f.Kind = "rdb-first"
+			case x < 32:
+				f.Kind = "rdb-mid"
+			case x < 64:
+				f.Kind = "rdb-last"
+			case x < 84:
+				f.Kind = "close-last"
+			default:
+				f.Kind = "log"
+			}
+			p.Faults = append(p.Faults, f)
+		}
 	}
 	return p
 }
@@ -1277,7 +1316,7 @@ const sampleWatchdog = 60 * time.Second
 func runCase(r *harness.Run, ci int, root, childBin string, perCase int) []*image {
 	caseKey := fmt.Sprintf("case-%d", ci)
 	rng := r.Rand(caseKey)
-	p := genParams(rng)
+	p := genParams(rng, ci%3 == 2)
 	cdir := filepath.Join(root, caseKey)
 	_ = os.MkdirAll(cdir, 0o755)
 	defer os.RemoveAll(cdir)
@@ -1329,6 +1368,10 @@ func runCase(r *harness.Run, ci int, root, childBin string, perCase int) []*imag
 			t0 := time.Now()
 			timedOut := false
 			for !ch.exited() {
+				if shm.Load(prf.SlotFaultSeq) != shm.Load(prf.SlotFaultAck) {
+					aim = "fault" // a writer ended after a refused write / close: the tool is in its back-off
+					break
+				}
 				if aim == "trigger" && shm.Load(prf.SlotPhaseSeq) != seq0 {
 					break
 				}
@@ -1399,6 +1442,7 @@ func runCase(r *harness.Run, ci int, root, childBin string, perCase int) []*imag
 			}
 			// the child is stopped (or gone): the directory cannot change under the copy
 			img := &image{Case: caseKey, Idx: len(images), Aim: aim, Params: p, Shm: shm.State(), Dirs: copyDirs(p.Dir), Resumed: resumed}
+			shm.Store(prf.SlotFaultAck, img.Shm.FaultSeq)
 			img.Params.Resume = false
 			images = append(images, img)
 			if finished {
@@ -1507,6 +1551,7 @@ func main() {
 	}
 	r.Assume("a process stopped by SIGSTOP with every thread in state T performs no system call, so a copy of its directory is the image a SIGKILL at that instant would leave (page cache included; power loss is not modelled)")
 	r.Assume("the source can continue inside the generation the cache is in and answers FULLRESYNC otherwise; a restarted writer follows RedisInput: StartPoint, [DelRunId], SetRunId, NewRdbWriter/NewAofWritter")
+	r.Assume("hostile chains (every third case): a refused write is produced with RLIMIT_FSIZE in the child (SIGXFSZ ignored, write(2) stores what fits and fails with EFBIG; stands for ENOSPC/EDQUOT/EIO); after it the child follows RedisInput.Run: run error, back-off, start over")
 	r.Assume("alterations: one per opened copy, only files with a recorded checksum (finalised segments, the renamed snapshot); a truncated snapshot keeps more than its 8 trailer bytes")
 
 	wantImages := r.N(150, 5000)
